@@ -35,11 +35,13 @@ REQUIRED_COUNTERS = {
     "quick": {"forward_vs_reference_checked": 500, "matrix_entries_checked": 40000, "exactdata_checked": 180,
               "noise_affine_checked": 170, "posterior_logd_checked": 400, "components_identity_checked": 180,
               "noise_stat_pooled_samples": 1500, "psf_tie_cases_checked": 12, "psf_tie_cases_2d_checked": 4,
-              "observation_map_cases_checked": 50, "observation_nonmonotone_checked": 8, "observation_offnode_checked": 12},
+              "observation_map_cases_checked": 60, "observation_nonmonotone_checked": 8, "observation_offnode_checked": 8,
+              "observation_leading_segment_checked": 10, "observation_length_checked": 100},
     "thorough": {"forward_vs_reference_checked": 4000, "matrix_entries_checked": 300000, "exactdata_checked": 1200,
                  "noise_affine_checked": 1200, "posterior_logd_checked": 2500, "components_identity_checked": 1200,
                  "noise_stat_pooled_samples": 15000, "psf_tie_cases_checked": 90, "psf_tie_cases_2d_checked": 25,
-                 "observation_map_cases_checked": 350, "observation_nonmonotone_checked": 60, "observation_offnode_checked": 90},
+                 "observation_map_cases_checked": 350, "observation_nonmonotone_checked": 50, "observation_offnode_checked": 60,
+                 "observation_leading_segment_checked": 80, "observation_length_checked": 500},
 }
 BUDGET_S = {"quick": 240.0, "thorough": 1500.0}
 
@@ -50,7 +52,9 @@ LEGACY_KINDS = ("gauss", "sinc", "prolate", "vonmises", "custom_sym", "custom_as
 FIELDS = ("none", "KL", "KL_modes", "KL_Full", "Step", "CustomKL", "geomobj")
 ABEL_FIELDS = ("none", "KL", "KL_modes", "Step", "CustomKL", "geomobj")
 OBS = (None, "every2", "perm", "mid", "every3from1", "reversed", "mixed", "upper", "repeat_perm", "single", "three",
-       "mixed_perm", "repeat", "full_reversed", "single_mid", "full")
+       "mixed_perm", "repeat", "full_reversed", "single_mid", "full",
+       "lead_half", "trail2", "lead1", "lead_lt", "lead_nm1", "trail_half", "lead2")
+OBS_LEADING = ("lead1", "lead2", "lead_half", "lead_nm1", "lead_lt")      # a prefix of the solution grid (g[:k], g[g<c])
 OBS_NONMONOTONE = ("perm", "reversed", "repeat_perm", "mixed_perm", "full_reversed")
 PHANTOMS_2D = ("satellite", "shepp_logan", "grains", "cat", "camera")
 
@@ -860,6 +864,12 @@ def _obs_positions(rule, n):
     if rule == "mid": return [(k, True) for k in range(0, n - 1, 2)]        # off-node points
     if rule == "mixed": return [(1, False), (2, True), (n - 2, False), (n - 2, True)]
     if rule == "mixed_perm": return [(n - 2, False), (2, True), (1, False)]
+    if rule == "lead1": return N(range(1))                                 # leading segments g[:k] / g[g<c]
+    if rule == "lead2": return N(range(2))
+    if rule in ("lead_half", "lead_lt"): return N(range(n // 2))
+    if rule == "lead_nm1": return N(range(n - 1))
+    if rule == "trail2": return N(range(n - 2, n))                          # trailing counterparts g[-k:]
+    if rule == "trail_half": return N(range(n - n // 2, n))
     if rule == "single": return [(n // 2, False)]
     if rule == "single_mid": return [(n // 2, True)]
     raise ValueError(rule)
@@ -867,6 +877,13 @@ def _obs_positions(rule, n):
 def _obs_lambda(rule):
     if rule is None: return None
     if rule == "full": return lambda g: g.copy()
+    if rule == "lead_lt": return lambda g: g[g < (g[len(g) // 2 - 1] + g[len(g) // 2]) / 2]      # threshold in the middle of a cell
+    if rule == "lead1": return lambda g: g[:1]
+    if rule == "lead2": return lambda g: g[:2]
+    if rule == "lead_half": return lambda g: g[:len(g) // 2]
+    if rule == "lead_nm1": return lambda g: g[:-1]
+    if rule == "trail2": return lambda g: g[-2:]
+    if rule == "trail_half": return lambda g: g[-(len(g) // 2):]
     return lambda g: R.obs_points(g, _obs_positions(rule, len(g)))
 
 def _geomobj(cuqi, grid, npar, bseed):
@@ -1025,6 +1042,16 @@ def _run_pde(case, ctx, cuqi, rs):
         if not all_nodes: ctx.count("observation_offnode_checked")
         if len(opos) != len({p_ for p_ in opos}): ctx.count("observation_repeated_point_checked")
         if len(opos) == 1: ctx.count("observation_single_point_checked")
+        if obs in OBS_LEADING or obs == "reversed": ctx.count("observation_leading_segment_checked")
+    # lengths: forward output, exactData and data all have the size of the range geometry (= number of observation points)
+    ctx.count("observation_length_checked")
+    lens = {"range_geometry.par_dim": int(tp.model.range_geometry.par_dim), "model.range_dim": int(tp.model.range_dim),
+            "exactData": int(np.size(tp.exactData)), "data": int(np.size(tp.data))}
+    for nm_, x_, kw_ in (("forward(par)", pts[0], {}), ("forward(funvals)", fvals[0], {"is_par": False})):
+        k2, y2 = core.outcome(tp.model.forward, x_, refusal=core.REFUSAL_TYPES_BROAD, **kw_)
+        lens[nm_] = int(np.size(y2)) if k2 == "value" else -1
+    if any(v != len(opos) for v in lens.values()):
+        ctx.violation("observation_length_mismatch", cfg, detail=f"{len(opos)} observation points, but sizes are {lens}")
     if prob == "abel" and case["field"] == "none" and mp is None:
         M = np.asarray(tp.model.get_matrix())
         ctx.count("matrix_entries_checked", dim * dim)
